@@ -884,6 +884,9 @@ def run_case(c):
         ]
         if c["nac"]:
             effects.append(("qpoints-nac-method-wang", ["--qpoints", qarg3, "--nac-method", "wang"], "qpoints.yaml", "wang"))
+            # the spellings the documentation itself uses (setting-tags: NAC_METHOD = WANG; --help: Wang): the same method
+            effects.append(("qpoints-nac-method-Wang", ["--qpoints", qarg3, "--nac-method", "Wang"], "qpoints.yaml", "wang"))
+            effects.append(("qpoints-NAC_METHOD-WANG", "QPOINTS = " + qarg3 + "\nNAC_METHOD = WANG", "qpoints.yaml", "wang"))
             effects.append(("qpoints-q-direction", ["--qpoints", "0 0 0", "--q-direction", "1 1 0"], "qpoints.yaml", "qdir"))
         for label, args_, fn_, fun in effects:
             rm(fn_)
